@@ -314,6 +314,7 @@ def client_checks(ctx):
         c_nofaults = wsdlkit.client(w, nosend=True, faults=False)
         c_ns = wsdlkit.client(w, nosend=True)
         c_lax = wsdlkit.client(w, nosend=True, extraArgumentErrors=False)
+        c_aump = wsdlkit.client(w, nosend=True, allowUnknownMessageParts=True)
         c_raw = wsdlkit.client(w, nosend=True, unwrap=False)
         names = [l[0] for l in flatten(jf, [], {}, [])]
         model_forest = [{"id": 1000, "choice": False, "kids": [{"id": 1001, "choice": False, "kids":
@@ -402,6 +403,8 @@ def client_checks(ctx):
                     ctx.fail("something was sent although the call was rejected", inp, len(tr.sent) - n0, 0)
                 # rejected the same way whatever becomes of replies: faults returned as values, a simulated reply
                 for label, call in (("faults=False", lambda: c_nofaults.service.f(*args, **dict(kw))),
+                                    # (tolerating unknown parts of REPLIES says nothing about the arguments of a call)
+                                    ("allowUnknownMessageParts=True", lambda: c_aump.service.f(*args, **dict(kw))),
                                     ("__inject reply", lambda: c_ns.service.f(*args, __inject={"reply": b""}, **dict(kw)))):
                     try:
                         r = call()
@@ -614,6 +617,45 @@ def repeating_and_foreign_typed_wrappers(ctx):
             ctx.fail("call styles send different requests", meta, shapes[label], exp)
 
 
+def wrapper_namespace_without_prefix(ctx):
+    """The wrapper element of a schema no prefix is bound to (the message part binds one for its own reference): the
+    dict / factory-object call with unwrapping disabled sends the request the keyword call sends - wrapper, members
+    and header entry each in its namespace."""
+    from harness.props import c01
+    args = dict(order=dict(billing={"contact": {"ok": "yes", "code": 7}}, shipping={"contact": {"ok": True, "code": None}}),
+                amount="2.5")
+    ref = None
+    for unwrap in (True, False):
+        for how in ("dict", "object"):
+            if unwrap and how == "object":
+                continue
+            meta = {"stream": "wrapper-namespace-without-prefix", "unwrap": unwrap, "how": how}
+            ctx.case(common.canon(meta), True)
+            try:
+                c = wsdlkit.client(c01.NOPREFIX_WSDL, nosend=True, unwrap=unwrap)
+                if unwrap:
+                    env = wsdlkit.envelope_bytes(c.service.Op(**args))
+                elif how == "dict":
+                    env = wsdlkit.envelope_bytes(c.service.Op(dict(args)))
+                else:
+                    o = c.factory.create("{urn:np:a}Op")
+                    o.order.billing.contact.ok, o.order.billing.contact.code = "yes", 7
+                    o.order.shipping.contact.ok, o.order.shipping.contact.code = True, None
+                    o.amount = "2.5"
+                    env = wsdlkit.envelope_bytes(c.service.Op(o))
+                got = xmlread.infoset(xmlread.parse(env))
+                wrapper = xmlread.find1(xmlread.parse(env), "Body")["children"][0]["name"]
+            except Exception as e:
+                got, wrapper = "%s: %s" % (type(e).__name__, e), None
+            if ref is None:
+                ref = got
+                if list(wrapper or []) != ["urn:np:a", "Op"]:
+                    ctx.fail("call styles send different requests", meta, list(wrapper or []), ["urn:np:a", "Op"])
+            elif got != ref:
+                ctx.fail("%s with unwrap=False sends a different request" % ("dict" if how == "dict" else "factory object"),
+                         meta, repr(got)[:600], repr(ref)[:600])
+
+
 def rpc_and_ports(ctx):
     """(C) the two binding-level sites around the parser: rpc operations bind positional and keyword values alike
     (None included), and same-named operations of two ports are each bound against their own parameters."""
@@ -698,6 +740,7 @@ def run(ctx):
     parser_correspondence(ctx)
     client_checks(ctx)
     rpc_and_ports(ctx)
+    wrapper_namespace_without_prefix(ctx)
     empty_wrappers(ctx)
     repeating_and_foreign_typed_wrappers(ctx)
 
